@@ -32,6 +32,7 @@ SAN = ('-fsanitize=signed-integer-overflow,shift,float-cast-overflow,integer-div
 HDR = ('glm/glm.hpp', 'glm/gtc/bitfield.hpp', 'glm/gtc/packing.hpp', 'glm/gtc/round.hpp', 'glm/gtc/integer.hpp', 'glm/ext/scalar_common.hpp', 'glm/ext/scalar_integer.hpp', 'glm/ext/vector_integer.hpp',
        'glm/gtc/quaternion.hpp', 'glm/gtx/bit.hpp', 'glm/gtc/ulp.hpp', 'glm/gtc/type_precision.hpp', 'glm/gtc/color_space.hpp', 'glm/gtx/color_space_YCoCg.hpp')
 CFG = Cfg('ubsan', headers=HDR, defines=('GLM_ENABLE_EXPERIMENTAL',), flags=SAN)
+CFG_PEEL = Cfg('ubsan_peel', headers=HDR, defines=('GLM_ENABLE_EXPERIMENTAL',), flags=SAN, peel=12)
 CFG_SWZ = Cfg('ubsan_swizzle', headers=HDR, defines=('GLM_ENABLE_EXPERIMENTAL', 'GLM_FORCE_SWIZZLE', 'GLM_FORCE_INTRINSICS'), flags=SAN + ('-msse2',))
 
 KINDS = {0: 'add_overflow', 1: 'builtin_unreachable', 3: 'divrem_overflow', 5: 'float_cast_overflow', 7: 'implicit_conversion', 8: 'invalid_builtin', 10: 'load_invalid_value', 11: 'missing_return',
@@ -149,7 +150,8 @@ def corpus(tier):
     unpacks = [('unpackUnorm4x8', 'uint', v4), ('unpackSnorm4x8', 'uint', v4), ('unpackHalf2x16', 'uint', v2), ('unpackHalf1x16', 'uint16', 'float'), ('unpackF2x11_1x10', 'uint32', v3), ('unpackF3x9_E1x5', 'uint32', v3),
                ('unpackSnorm3x10_1x2', 'uint32', v4), ('unpackUnorm3x5_1x1', 'uint16', v4)]
     for fn_, it_, ot in unpacks:
-        add(F(fn_, ot, [('p', it_, FULL)], '%s(p)' % fn_))
+        # the half decoder renormalises subnormals in a loop of at most ten rounds: analysed with the loop peeled (a longer run would be reported as undecided)
+        add(F(fn_, ot, [('p', it_, FULL)], '%s(p)' % fn_, cfg=CFG_PEEL if 'Half' in fn_ else None))
     add(F('packRGBM', v4, [('v', v3, (0.0, 1e3))], 'packRGBM(v)'))
     add(F('packUnorm<uint8>(vec4)', G.vec(4, 'uint8'), [('v', v4, ANYF)], 'packUnorm<glm::uint8>(v)'))
     add(F('packSnorm<int16>(vec2)', G.vec(2, 'int16'), [('v', v2, ANYF)], 'packSnorm<glm::int16>(v)'))
@@ -425,11 +427,57 @@ def msb_split_unsat(ct, lanes):
             continue
         parts = ([tm.slice_(x, 0, p_)] if p_ else []) + [tm.const(1, 1)] + ([tm.zeros(w - p_ - 1)] if w - p_ - 1 else [])
         shapes.append(tm.concat(parts))
-    for sh in shapes:
-        r = tm.substitute(ct, {x: sh})
-        if not (r.op == 'const' and r.args[0] == 0):
-            return False
+    if all(_is_false(tm.substitute(ct, {x: sh})) for sh in shapes):
+        return True
+    # the ladder may be applied to x - 1 (ceilPowerOfTwo): the same case analysis on y = x - 1, x := y + 1, y in [lo - 1, hi - 1]
+    if lo >= 1:
+        y = tm.inp('y_eq_x_minus_1', 0, w)
+        ys = [tm.zeros(w)] if lo == 1 else []
+        for p_ in range((hi - 1).bit_length()):
+            if (1 << (p_ + 1)) - 1 < lo - 1:
+                continue
+            parts = ([tm.slice_(y, 0, p_)] if p_ else []) + [tm.const(1, 1)] + ([tm.zeros(w - p_ - 1)] if w - p_ - 1 else [])
+            ys.append(tm.concat(parts))
+        # x is non-negative in the box: its sign bit is 0, which resolves the absolute value of the signed variants; the ladder's operand x - 1 is then one
+        # node of the condition and is replaced by the shape of y itself, x elsewhere by y + 1
+        X = tm.concat([tm.slice_(x, 0, w - 1), tm.zeros(1)])
+        ct1 = tm.substitute(ct, {x: X})
+        N = tm.arith('add', X, tm.const(w, (1 << w) - 1))
+        if all(_is_false(tm.substitute(ct1, {N: sh, X: tm.arith('add', sh, tm.const(w, 1))})) for sh in ys):
+            return True
+    return False
+
+
+def half_split_unsat(ct):
+    """conditions of the half decoders over a 16-bit code (or a 32-bit word holding two codes): case analysis on the 52 shapes of a half pattern (zero, subnormal
+    with the leading one at each position, each exponent field, infinity, NaN by lowest payload bit; the remaining bits symbolic) which together cover all 65536
+    codes; every case must normalise to the constant false.  For a word of two codes the halves are split one at a time, then jointly."""
+    from rules import c07
+    ins = sorted({x for x in tm.walk(ct) if x.op == 'in'}, key=lambda t: t.id)
+    if len(ins) != 1 or ins[0].w not in (16, 32):
+        return False
+    x = ins[0]
+    if x.w == 16:
+        return all(_is_false(tm.substitute(ct, {x: sh})) for _, sh, _ in c07.half_shapes(x))
+    lo, hi = tm.slice_(x, 0, 16), tm.slice_(x, 16, 16)
+    los = [tm.concat([sh, hi]) for _, sh, _ in c07.half_shapes(lo)]
+    if all(_is_false(tm.substitute(ct, {x: w_})) for w_ in los):
+        return True
+    his = [tm.concat([lo, sh]) for _, sh, _ in c07.half_shapes(hi)]
+    if all(_is_false(tm.substitute(ct, {x: w_})) for w_ in his):
+        return True
+    for _, a, _ in c07.half_shapes(lo):
+        r = tm.substitute(ct, {x: tm.concat([a, hi])})
+        if _is_false(r):
+            continue                    # this shape of the low code already excludes the condition, whatever the high code is
+        for _, b, _ in c07.half_shapes(hi):
+            if not _is_false(tm.substitute(r, {x: tm.concat([a, b])})):
+                return False
     return True
+
+
+def _is_false(r):
+    return r.op == 'const' and r.args[0] == 0
 
 
 def msb_split_unsat_dnf(cond, lanes):
@@ -491,6 +539,9 @@ def judge_of(f, k):
                 res.append(R.ob(oid, kind, R.PROVED, 'the check cannot fail inside the documented domain (%s): condition %s' % (box_text(f), tm.show(ct, 4)[:160]), kernel=k.source()))
                 continue
             wit = find_witness(ct, lanes)
+            if wit is None and 'Half' in f.name and half_split_unsat(ct):
+                res.append(R.ob(oid, kind, R.PROVED, 'the check cannot fail for any half code: on each of the 52 shapes of a half pattern (remaining bits symbolic) the condition normalises to false', kernel=k.source()))
+                continue
             if wit is None and (msb_split_unsat(ct, lanes) or msb_split_unsat_dnf(cond, lanes)):
                 res.append(R.ob(oid, kind, R.PROVED, 'the check cannot fail inside the documented domain (%s): on every shape of the argument (position of its highest set bit fixed, lower bits symbolic) the condition normalises to false' % box_text(f), kernel=k.source()))
                 continue
